@@ -170,6 +170,10 @@ func ExtractMysqlComment(sql string) (version string, innerSQL string) {
 		digitCount++
 		return !unicode.IsDigit(c) || digitCount == 6
 	})
+	if endOfVersionIndex < 0 {
+		// the comment body is empty or consists of version digits only ("/*!*/", "/*!123*/"): no SQL inside
+		return sql, ""
+	}
 	version = sql[0:endOfVersionIndex]
 	innerSQL = strings.TrimFunc(sql[endOfVersionIndex:], unicode.IsSpace)
 
